@@ -122,6 +122,16 @@ func Replay(newInst func() Instance, path []uint32) (Instance, string) {
 	return inst, ""
 }
 
+// Disposer is implemented by instances that hold resources (open stores,
+// goroutines) which must be released when the search is done with them.
+type Disposer interface{ Dispose() }
+
+func dispose(inst Instance) {
+	if d, ok := inst.(Disposer); ok {
+		d.Dispose()
+	}
+}
+
 // BFS runs a level-synchronous breadth-first search over the reachable states.
 func BFS(cfg BFSConfig) BFSStats {
 	if cfg.Workers <= 0 {
@@ -228,6 +238,9 @@ func BFS(cfg BFSConfig) BFSStats {
 						panic("nondeterministic replay: " + msg)
 					}
 					evs := base.Enabled()
+					if len(evs) == 0 {
+						dispose(base)
+					}
 					for k, ev := range evs {
 						var inst Instance
 						if k == len(evs)-1 {
@@ -235,61 +248,64 @@ func BFS(cfg BFSConfig) BFSStats {
 						} else {
 							inst, _ = Replay(cfg.New, path)
 						}
-						atomic.AddInt64(&transitions, 1)
-						np := append(append([]uint32{}, path...), ev)
-						if msg := inst.Step(ev); msg != "" {
-							report(np, msg)
-							continue
-						}
-						if msg := inst.Check(); msg != "" {
-							report(np, msg)
-							continue
-						}
-						if !seen.add(fingerprint(inst.Canon())) {
-							continue
-						}
-						atomic.AddInt64(&found, 1)
-						if cfg.OnState != nil {
-							cfg.OnState(inst, np)
-						}
-						if !cfg.Chain || cfg.MaxDepth > 0 {
-							localNext = append(localNext, bfsNode{parent: id, ev: ev})
-							if len(localNext) >= 1024 {
-								flush()
-							}
-							continue
-						}
-						// chain mode
-						cur := addNode(id, ev)
-						for atomic.LoadInt32(&stop) == 0 {
-							ce := inst.Enabled()
-							if len(ce) != 1 {
-								if len(ce) > 1 {
-									nextMu.Lock()
-									next = append(next, cur)
-									nextMu.Unlock()
-								}
-								break
-							}
+						func() {
+							defer dispose(inst)
 							atomic.AddInt64(&transitions, 1)
-							np = append(np, ce[0])
-							if msg := inst.Step(ce[0]); msg != "" {
-								report(append([]uint32{}, np...), msg)
-								break
+							np := append(append([]uint32{}, path...), ev)
+							if msg := inst.Step(ev); msg != "" {
+								report(np, msg)
+								return
 							}
 							if msg := inst.Check(); msg != "" {
-								report(append([]uint32{}, np...), msg)
-								break
+								report(np, msg)
+								return
 							}
 							if !seen.add(fingerprint(inst.Canon())) {
-								break
+								return
 							}
-							atomic.AddInt64(&chained, 1)
+							atomic.AddInt64(&found, 1)
 							if cfg.OnState != nil {
 								cfg.OnState(inst, np)
 							}
-							cur = addNode(cur, ce[0])
-						}
+							if !cfg.Chain || cfg.MaxDepth > 0 {
+								localNext = append(localNext, bfsNode{parent: id, ev: ev})
+								if len(localNext) >= 1024 {
+									flush()
+								}
+								return
+							}
+							// chain mode
+							cur := addNode(id, ev)
+							for atomic.LoadInt32(&stop) == 0 {
+								ce := inst.Enabled()
+								if len(ce) != 1 {
+									if len(ce) > 1 {
+										nextMu.Lock()
+										next = append(next, cur)
+										nextMu.Unlock()
+									}
+									break
+								}
+								atomic.AddInt64(&transitions, 1)
+								np = append(np, ce[0])
+								if msg := inst.Step(ce[0]); msg != "" {
+									report(append([]uint32{}, np...), msg)
+									break
+								}
+								if msg := inst.Check(); msg != "" {
+									report(append([]uint32{}, np...), msg)
+									break
+								}
+								if !seen.add(fingerprint(inst.Canon())) {
+									break
+								}
+								atomic.AddInt64(&chained, 1)
+								if cfg.OnState != nil {
+									cfg.OnState(inst, np)
+								}
+								cur = addNode(cur, ce[0])
+							}
+						}()
 					}
 				}
 				flush()
